@@ -49,9 +49,36 @@ def pubkey(name):
     return _PUB[name]
 
 
+_SHORT = {'"': '\\"', "\\": "\\\\", "\n": "\\n", "\r": "\\r", "\t": "\\t", "\b": "\\b", "\f": "\\f"}
+
+
+def _esc(s):
+    out = ['"']
+    for ch in s:
+        if ch in _SHORT:
+            out.append(_SHORT[ch])
+        elif ord(ch) < 0x20:
+            # NIP-01 names no escape for the other control characters; the relay's verifier
+            # (aionostr + rapidjson) writes \u00XX with upper-case hex digits, so that is what
+            # "canonical" means for them here (C03 universes avoid such characters altogether)
+            out.append("\\u%04X" % ord(ch))
+        else:
+            out.append(ch)
+    out.append('"')
+    return "".join(out)
+
+
+def _dump(v):
+    if isinstance(v, str):
+        return _esc(v)
+    if isinstance(v, (list, tuple)):
+        return "[" + ",".join(_dump(x) for x in v) + "]"
+    return json.dumps(v, separators=(",", ":"), ensure_ascii=False)
+
+
 def canonical(pub, created_at, kind, tags, content):
-    """NIP-01 canonical serialisation, independent of aionostr (stdlib json)."""
-    return json.dumps([0, pub, created_at, kind, tags, content], separators=(",", ":"), ensure_ascii=False).encode("utf8")
+    """NIP-01 canonical serialisation, written out by hand (independent of aionostr / rapidjson)."""
+    return _dump([0, pub, created_at, kind, tags, content]).encode("utf8")
 
 
 def compute_id(pub, created_at, kind, tags, content):
